@@ -149,8 +149,22 @@ where
     // route 0: constructed with (frames, bin, hop). Routes 1/2 reach the same state through the
     // documented public fields: constructed with other values, then `bin`/`hop` (1) or `frames`
     // (2) assigned - everything below must not be able to tell the difference.
+    // route 3: a windower that has already yielded a chunk under OTHER settings (two extra
+    // leading frames, bin 2, hop 2) and whose bin/hop are then changed mid-stream
+    let frames_ext: Vec<F> = (0..2).map(|i| F::from_fn(|c| <F::Sample as AnyS>::distinct((900 + i * F::CHANNELS + c) as u64))).chain(frames.iter().cloned()).collect();
     let mut wr: Windower<F, W> = match route {
         0 => Windower::new(&frames[..], b, h),
+        3 => {
+            let mut w = Windower::new(&frames_ext[..], 2, 2);
+            let first: Vec<F> = w.next().map(|c| c.take(2).collect()).unwrap_or_default();
+            if first.len() != 2 {
+                rep.violation("windower|chunk_too_short", format!("warm-up chunk (bin 2, hop 2) over {} frames yielded {} frames", frames_ext.len(), first.len()), case());
+                return;
+            }
+            w.bin = b;
+            w.hop = h;
+            w
+        }
         1 => {
             let mut w = Windower::new(&frames[..], b + 3, if h < usize::MAX - 2 { h + 2 } else { h - 2 });
             w.bin = b;
@@ -232,6 +246,10 @@ fn windower_all_inner(rep: &mut Report, l: usize, b: usize, h: usize) {
         check_windower::<f64, Hann>(rep, l, b, h, 1);
         check_windower::<[f32; 2], Hann>(rep, l, b, h, 2);
         check_windower::<[i16; 2], Rectangle>(rep, l, b, h, 1);
+    }
+    if (l + b + h % 3) % 3 == 0 {
+        check_windower::<f64, Hann>(rep, l, b, h, 3);
+        check_windower::<[f32; 2], Hann>(rep, l, b, h, 3);
     }
     // iterator protocol of the three window iterators (nth / fold / count / last / skip /
     // step_by / size_hint / clone against plain next())
